@@ -63,6 +63,9 @@ IsEvent(e) == l <= Len(Tr) /\ Ev.e = e /\ l' = l + 1 /\ UNCHANGED tid
 NoAdopt == [gen |-> 0, tps |-> {}]
 TopicOf(tp) == Cfg.topic_of[tp]          \* every partition that exists or may come to exist during the run
 IsClient(c) == c \in Clients /\ c \in Range(Cfg.clients)
+\* offsets of a partition that a read_committed consumer must never be handed: transaction markers and the records of
+\* aborted transactions (class "txnlog"; empty for plain logs, where every offset is visible)
+Hidden(tp) == IF "hidden" \in DOMAIN Cfg /\ tp \in DOMAIN Cfg.hidden THEN Range(Cfg.hidden[tp]) ELSE {}
 Upd(f, k, v) == [x \in DOMAIN f \cup {k} |-> IF x = k THEN v ELSE f[x]]
 
 TraceInit ==
@@ -250,8 +253,11 @@ TTake ==
         ELSE /\ ~gateUp[c] /\ c \notin inRevoke                          \* C05 silent while reassigning
              /\ tp \in adopted[c].tps                                     \* C05 only from the live assignment
              /\ pos[c][tp] # -1
-             /\ \A i \in 1..n : Ev.offs[i] = pos[c][tp] + i - 1           \* C04 from the start position, none skipped
-             /\ pos' = [pos EXCEPT ![c][tp] = @ + n]
+             /\ Ev.offs[1] >= pos[c][tp]                                  \* C04 from the start position,
+             /\ \A i \in 1..(n - 1) : Ev.offs[i] < Ev.offs[i + 1]         \*     in offset order,
+             /\ \A x \in pos[c][tp]..Ev.offs[n] :                         \*     no VISIBLE record skipped,
+                    IF x \in Hidden(tp) THEN x \notin Range(Ev.offs) ELSE x \in Range(Ev.offs)   \* no hidden one handed out
+             /\ pos' = [pos EXCEPT ![c][tp] = Ev.offs[n] + 1]
              /\ dl' = [dl EXCEPT ![c][tp] = @ \cup Range(Ev.offs)]
              /\ ever' = [ever EXCEPT ![tp] = @ \cup Range(Ev.offs)]
   /\ Keep(<<lagUntil, subChg, mid, cgen, expectSync, distd, adopted, gateUp, inRevoke, needRevoke, subs, alive, start, fetched, committed>>)
@@ -264,7 +270,7 @@ TCommitReply ==
           /\ \A tp \in DOMAIN Ev.offsets :
                /\ start[Ev.c][tp] # -1
                /\ Ev.offsets[tp] >= start[Ev.c][tp]
-               /\ \A x \in start[Ev.c][tp]..(Ev.offsets[tp] - 1) : x \in dl[Ev.c][tp]
+               /\ \A x \in start[Ev.c][tp]..(Ev.offsets[tp] - 1) : x \in dl[Ev.c][tp] \/ x \in Hidden(tp)
           /\ committed' = [tp \in TPs |-> IF tp \in DOMAIN Ev.offsets THEN Ev.offsets[tp] ELSE committed[tp]]
      ELSE UNCHANGED committed
   /\ IF Ev.code # 0 /\ Ev.c \in Clients THEN Interrupt({Ev.c}) ELSE UNCHANGED expectSync
@@ -322,7 +328,7 @@ TEnd ==
 \* C04 at least once: every record of every owned partition was delivered by some incarnation
 TEndDelivery ==
   /\ IsEvent("EndDelivery")
-  /\ \A tp \in UNION {adopted[c].tps : c \in LiveCs} : ever[tp] = 0..(Ev.leo[tp] - 1)   \* the log may have grown during the run
+  /\ \A tp \in UNION {adopted[c].tps : c \in LiveCs} : ever[tp] = (0..(Ev.leo[tp] - 1)) \ Hidden(tp)   \* the log may have grown during the run
   /\ Keep(<<lagUntil, subChg, mid, cgen, expectSync, distd, adopted, gateUp, inRevoke, needRevoke, subs, alive, start, pos, dl, ever,
             fetched, committed>>)
 
@@ -340,7 +346,7 @@ TraceSpec == TraceInit /\ [][TraceNext]_tvars
 DisjointNow ==
   \A a, b \in Clients : (a # b /\ alive[a] /\ alive[b] /\ adopted[a].gen # 0 /\ adopted[a].gen = adopted[b].gen)
       => adopted[a].tps \cap adopted[b].tps = {}
-CommittedDelivered == \A tp \in TPs : \A x \in 0..(committed[tp] - 1) : x \in ever[tp]
+CommittedDelivered == \A tp \in TPs : \A x \in 0..(committed[tp] - 1) : x \in ever[tp] \/ x \in Hidden(tp)
 Bad == IF ~DisjointNow THEN "DisjointWithinGeneration"
        ELSE IF ~CommittedDelivered THEN "CommittedWasDelivered" ELSE ""
 
